@@ -3,6 +3,7 @@ package props
 import (
 	"fmt"
 	"strings"
+	"verifsa/internal/paths"
 
 	"golang.org/x/tools/go/ssa"
 
@@ -342,6 +343,34 @@ func runC15(c *core.Ctx) {
 					}
 					if !wholeDigest(rs[0], u.Out) {
 						ok, why = false, "the value returned is not the whole 16-octet digest"
+					}
+				}
+			}
+			if ok {
+				// a nil digest is returned only together with an error the path has found non-nil
+				if ps, err := paths.Enumerate(fn, paths.Config{}); err != nil {
+					ok, why = false, "path enumeration failed: "+err.Error()
+				} else {
+					for _, p := range ps {
+						if p.Aborted != "" || len(p.Results) != 2 {
+							ok, why = false, "a path of the helper is not analysable"
+							continue
+						}
+						if !paths.IsNilConst(p.Results[0]) {
+							continue
+						}
+						established := false
+						for _, e := range p.Events {
+							if e.Kind != paths.EvBranch {
+								continue
+							}
+							if subj, neq, isNil := nilTest(e.Cond); isNil && neq == e.Taken && e.Resolve(subj) == p.Results[1] {
+								established = true
+							}
+						}
+						if !established {
+							ok, why = false, "a path returns no digest although no error has been found on it: the login is sent with an empty authenticator"
+						}
 					}
 				}
 			}
